@@ -113,3 +113,43 @@ Proof.
   refine (ab_body_K o _ _ IH _ _ _ _ _ _ _ _ _ _ _ H).
   intros s x a e p w s' x' E. exact (quiescence_rk o f _ _ _ _ _ _ _ _ E).
 Qed.
+
+(* ---- iterative deepening, Search.Go, New, Clear ---- *)
+Lemma fallback_rk st b mv st' b' : fallback st b = Ok (mv, st', b') -> rkR st st'.
+Proof. intros H. unfold fallback in H. walk. apply rkR_ms. Qed.
+
+Lemma aspire_rk fuel o : forall n st b al be f d a,
+  aspire fuel o n st b al be f d = Ok a ->
+  match a with AspOk _ st' _ => rkR st st' | AspAbort st' _ => rkR st st' end.
+Proof.
+  induction n as [|n IH]; intros st b al be f d a H; [discriminate H|].
+  cbn [aspire] in H. walk;
+    repeat match goal with E : alphaBeta _ _ _ _ _ _ _ _ _ = Ok _ |- _ => apply alphaBeta_rk in E end;
+    repeat match goal with E : aspire _ _ _ _ _ _ _ _ _ = Ok _ |- _ => apply IH in E end;
+    try destruct a; solveK o.
+Qed.
+
+Lemma deepen_rk fuel o : forall todo st b d al be sc mv pd reps r st' b',
+  deepen fuel o todo st b d al be sc mv pd reps = Ok (r, st', b') -> rkR st st'.
+Proof.
+  induction todo as [|t IH]; intros st b d al be sc mv pd reps r st' b' H.
+  - cbn [deepen] in H. walk. apply rkR_refl.
+  - cbn [deepen] in H. walk;
+      repeat match goal with E : aspire _ _ _ _ _ _ _ _ _ = Ok _ |- _ => apply aspire_rk in E; cbn beta iota in E end;
+      repeat match goal with E : fallback _ _ = Ok _ |- _ => apply fallback_rk in E end;
+      repeat match goal with E : deepen _ _ _ _ _ _ _ _ _ _ _ _ = Ok _ |- _ => apply IH in E end;
+      solveK o.
+Qed.
+
+Theorem go_rk fuel o st b r st' b' : go fuel o st b = Ok (r, st', b') -> reachable (s_rk st) -> reachable (s_rk st').
+Proof.
+  intros H Hr. unfold go, iterative_deepen in H. walk.
+  match goal with E : deepen _ _ _ _ _ _ _ _ _ _ _ _ = Ok _ |- _ => apply deepen_rk in E; apply (rkR_elim _ _ E) in Hr end.
+  exact Hr.
+Qed.
+
+Lemma new_state_rk size st : new_state size = Ok st -> reachable (s_rk st).
+Proof. unfold new_state. intros H. walk. apply reach_new. Qed.
+
+Lemma clear_state_rk st : reachable (s_rk (clear_state st)).
+Proof. apply reach_new. Qed.
